@@ -11,6 +11,7 @@ from __future__ import annotations
 import numpy as np
 
 from .. import em, games, gm
+from .. import prelude
 from ..core import Sim
 
 LEVEL = "exploration"
@@ -96,12 +97,15 @@ def run(sim: Sim) -> None:
         sim.probe("negative_values")
     sim.probe("exact_mode" if exact else "float_mode")
     sim.config.update(n=n, computer=comp_name, exact=exact, source=source)
+    prelude.warm_process(sim)
     h = gm.GameHarness(sim, n, comp_name, values)
     with sim.guard("C01.operation_raised"):
         h.reset_minimal(sim.subset(h.explorable, "start-extra", 1, 4))
     steps = 6 + sim.choose({3: 34, 4: 30, 5: 16, 6: 8, 7: 5}[n], "steps")
     last_kind = ""
     for _ in range(steps):
+        if sim.flip(1, 16, "other-use"):
+            prelude.warm_process(sim, label="midrun")
         with sim.guard("C01.operation_raised"):
             op = gm.draw_op(sim, h, truthful=True, allow_break_minimal=False)
             fault = None
